@@ -39,6 +39,7 @@ def shards(tier, seed):
                             weight=(len(al) + len(ig)) ** 4))
     out.append(dict(name="rc", kind="rc", weight=3000))
     out.append(dict(name="long", kind="long", weight=2000))
+    out.append(dict(name="history", kind="history", weight=2000))
     sizes = list(range(1, 7)) if tier == "quick" else list(range(1, 11)) + [16, 40]
     for size in sizes:
         out.append(dict(name="chunk/size%d" % size, kind="chunk", size=size, weight=size * 200))
@@ -275,8 +276,58 @@ def run_long(rec, tier, seed):
     rec.sample(dict(kind="long", lengths=lens))
 
 
+def run_history(rec, tier, seed):
+    """Call histories in one process: (alphabet, ignore, dtype) configurations alternated on the same strings - every call must follow
+    its own configuration (nothing may be carried over from an earlier call)."""
+    from tangermeme.utils import characters, one_hot_encode, reverse_complement
+    cfgs = [("ACGT", "N"), ("ACGT", "NR"), ("ACGT", ""), ("TGCA", "N"), ("ACG", "N"), ("ACGTR", "N"), ("AGCT", "-"), ("ACGT", "N-")]
+    strings = ["".join(t) for L in (1, 2, 3) for t in itertools.product("ACGTNR-", repeat=L)]
+    if tier == "quick":
+        strings = strings[::3]
+    for (c1, c2) in itertools.permutations(range(len(cfgs)), 2):
+        for s in strings[(c1 * 7 + c2) % 5::5]:
+            for ci in (c1, c2, c1):
+                al, ig = cfgs[ci]
+                valid = all(ch in al or ch in ig for ch in s)
+                st, x = call(one_hot_encode, s, alphabet=list(al), ignore=list(ig))
+                rec.case(1, 1)
+                case = dict(fn="one_hot_encode", s=s, alphabet=al, ignore=ig, history=[cfgs[c1], cfgs[c2], cfgs[c1]])
+                if not valid:
+                    if st == "ok":
+                        rec.violation("one_hot_encode:accepts_outside_character:history", case, expected="raise", observed=x)
+                    continue
+                exp = numpy.array([[1 if ch == a else 0 for ch in s] for a in al], dtype=numpy.int64)
+                if st != "ok" or not numpy.array_equal(x.numpy().astype(numpy.int64), exp):
+                    rec.violation("one_hot_encode:wrong_value:history", case, expected=exp, observed=x)
+                    continue
+                sN = "".join(ch if ch in al else "N" for ch in s)
+                st, back = call(characters, x, alphabet=list(al), allow_N=True)
+                if st != "ok" or back != sN:
+                    rec.violation("characters:wrong_value:history", case, expected=sN, observed=back)
+        rec.observe(c1, c2)
+    # reverse_complement with alternating complement maps
+    maps = [{"A": "T", "C": "G", "G": "C", "T": "A"}, {"A": "U", "C": "G", "G": "C", "U": "A"}, {"T": "A", "G": "C", "C": "G", "A": "T"}]
+    for (m1, m2) in itertools.permutations(range(len(maps)), 2):
+        for mi in (m1, m2, m1):
+            cm = maps[mi]
+            keys = list(cm)
+            for tup in itertools.product(keys, repeat=3):
+                s = "".join(tup)
+                exp = "".join(cm[c] for c in reversed(s))
+                st, r = call(reverse_complement, s, complement_map=cm)
+                x = one_hot_encode(s, alphabet=keys)
+                st2, xr = call(reverse_complement, x, complement_map=cm)
+                rec.case(1, 1)
+                if st != "ok" or r != exp or st2 != "ok" or not torch.equal(xr, one_hot_encode(exp, alphabet=keys)):
+                    rec.violation("reverse_complement:wrong:history", dict(fn="reverse_complement", s=s, complement_map=cm), expected=exp, observed=r)
+    rec.sample(dict(kind="history", configurations=cfgs, strings=len(strings), complement_maps=maps))
+
+
 def run_shard(sh, tier, seed):
     rec = Recorder(PID, sh["name"])
+    if sh["kind"] == "history":
+        run_history(rec, tier, seed)
+        return rec.result()
     if sh["kind"] == "long":
         run_long(rec, tier, seed)
         return rec.result()
@@ -292,7 +343,9 @@ def run_shard(sh, tier, seed):
 def replay(v):
     rec = Recorder(PID, "replay")
     c = v["case"]
-    if v["sig"].endswith("_long"):
+    if v["sig"].endswith(":history"):
+        run_history(rec, "thorough", 0)
+    elif v["sig"].endswith("_long"):
         run_long(rec, "quick", 0)
     elif v["sig"].startswith(("chunk", "unchunk")):
         run_chunk(rec, dict(size=c.get("size", 4)), "thorough")
